@@ -971,16 +971,30 @@ class Interp:
             flow = Flow()
             flow.brk, flow.cont, flow.exc = sub.brk, sub.cont, sub.exc
             target = node.items[0].optional_vars
+            # locals of the helper that nothing outside the block reads are dead at its end: what is known about them
+            # must not keep otherwise equal states apart
+            inside = {id(x) for x in ast.walk(node)}
+            keep = {x.id for x in ast.walk(self.func.node) if isinstance(x, ast.Name) and id(x) not in inside}
+            dead = [name for name in self._assigned_in(node.body) if name not in keep]
             out: list[State] = []
             for ret, s in sub.iret:
                 s = s.copy()
+                val = self.expand(ret.value, s) if ret.value is not None else ast.Constant(None)
                 if target is not None:
-                    self._assign(target, self.expand(ret.value, s) if ret.value is not None else ast.Constant(None), s)
+                    self._assign(target, val, s)
+                used = {x.id for x in ast.walk(val) if isinstance(x, ast.Name)}
+                for name in dead:
+                    if name not in used:
+                        s.kill_root(name)
+                        s.alias.pop(name, None)
                 out.append(s)
             for s in sub.fall:
                 s = s.copy()
                 if target is not None:
                     self._assign(target, ast.Constant(None), s)
+                for name in dead:
+                    s.kill_root(name)
+                    s.alias.pop(name, None)
                 out.append(s)
             flow.fall = self._dedup(out)
             return flow
